@@ -4,7 +4,8 @@ from __future__ import annotations
 import ast
 
 from ..cfg import cfg_of, T as TRUE, F as FALSE
-from ..dataflow import MUTATORS, derives, rd_of
+from ..dataflow import MUTATORS, derives, rd_of, resolve_local, return_values, expand_locals
+from .common_guard import raise_facts, path_facts, facts
 from ..loader import dotted, walk_no_nested
 
 PU = "program_utils.py"
@@ -61,7 +62,7 @@ def dep_key(ctx, rule="C04.dep-key"):
     ctx.ob(rule, g.site, ok and stores, "" if ok and stores else "the measured-parameter dependencies are not accumulated "
            "for every element of `par`", role="accumulate", line=upd[0].lineno)
     prop = ctx.tree.func("ops.py", "Operation.measurement_deps")
-    ok = any(isinstance(n, ast.Return) and dotted(n.value) == "self._measurement_deps" for n in walk_no_nested(prop.node))
+    ok = any(dotted(v) == "self._measurement_deps" for _, v in return_values(prop.node))
     ctx.ob(rule, prop.site, ok, "" if ok else "measurement_deps does not return the accumulated set", role="property",
            line=prop.node.lineno)
     h = ctx.tree.func("parameters.py", "par_regref_deps")
@@ -162,8 +163,8 @@ def partition(ctx, rule="C04.partition"):
     ctx.explain(f"{rule}: group_operations returns three slices A, B, C that are built from the sorted sequences by "
                 "index splitting only (every command lands in exactly one part).")
     f = ctx.tree.func(PU, "group_operations")
-    rets = [n for n in walk_no_nested(f.node) if isinstance(n, ast.Return) and n.value is not None]
-    ok = bool(rets) and all(isinstance(r.value, ast.Tuple) and len(r.value.elts) == 3 for r in rets)
+    rets = return_values(f.node)
+    ok = bool(rets) and all(isinstance(v, ast.Tuple) and len(v.elts) == 3 for _, v in rets)
     ctx.ob(rule, f.site, ok, "" if ok else "group_operations does not return (A, B, C)", role="triple", line=f.node.lineno)
     # complementary slices: X[:ind] and X[ind:] of the same list with the same index
     pairs = {}
@@ -203,20 +204,25 @@ def gbs_guards(ctx, rule="C04.gbs-guards"):
     ctx.require(grp and len(grp) == 3, "GBS.compile no longer unpacks group_operations into A, B, C")
     A, Bn, C = grp[0], grp[1], grp[2]
     feats = {"trailing": False, "no-measurement": False, "foreign-op": False, "measured-twice": False}
-    for n in cfg.nodes:
-        if n.kind != "if":
-            continue
-        t = n.ast
-        txt = ast.unparse(t)
-        rt, rf = cfg.ends_in_raise(n.id, TRUE), cfg.ends_in_raise(n.id, FALSE)
-        if rt and txt == C and cfg.dominates(n.id, cid):
-            feats["trailing"] = True
-        if rt and txt == f"not {Bn}" and cfg.dominates(n.id, cid):
-            feats["no-measurement"] = True
-        if rt and "isinstance" in txt and "MeasureFock" in txt and isinstance(t, ast.UnaryOp):
-            feats["foreign-op"] = True
-        if rt and isinstance(t, ast.BinOp) and isinstance(t.op, ast.BitAnd):
-            feats["measured-twice"] = True
+    def names(a):
+        return {x.id for x in ast.walk(a) if isinstance(x, ast.Name)}
+
+    for n, exc, fs in raise_facts(f):
+        dom = cfg.dominates(n.id, cid)
+        for a, truth in fs:
+            a = expand_locals(f.node, a)
+            nm = names(a)
+            # `if C:` / `if len(C) > 0:` raise  -  the raising case is 'C non-empty'
+            if dom and C in nm and not (isinstance(a, ast.Name) and not truth):
+                feats["trailing"] = True
+            if dom and Bn in nm and not (isinstance(a, ast.Name) and truth):
+                feats["no-measurement"] = True
+            if isinstance(a, ast.Call) and dotted(a.func) == "isinstance" and "MeasureFock" in ast.unparse(a) and not truth:
+                feats["foreign-op"] = True
+            if any(isinstance(x, ast.BinOp) and isinstance(x.op, ast.BitAnd) for x in ast.walk(a)) or \
+                    any(isinstance(x, ast.Call) and isinstance(x.func, ast.Attribute) and
+                        x.func.attr in ("intersection", "isdisjoint") for x in ast.walk(a)):
+                feats["measured-twice"] = True
     for k, v in feats.items():
         ctx.ob(rule, f.site, v, "" if v else f"GBS.compile lost its raising CircuitError guard for '{k}'", role=f"guard:{k}",
                line=f.node.lineno)
@@ -232,7 +238,8 @@ def gbs_guards(ctx, rule="C04.gbs-guards"):
     ctx.ob(rule, f.site, ok, "" if ok else "the register of the merged measurement is not the union of the measured "
            "registers sorted by index", role="merged-register", line=cmds[0].lineno)
     rets = [n for n in walk_no_nested(f.node) if isinstance(n, ast.Return) and n.value is not None]
-    ok = bool(rets) and all(A in {x.id for x in ast.walk(r.value) if isinstance(x, ast.Name)} for r in rets)
+    ok = bool(rets) and all(A in {x.id for x in ast.walk(resolve_local(f.node, r.value)) if isinstance(x, ast.Name)}
+                            or any(dd.var == A for dd in derives(f.node, r.value).defs) for r in rets)
     ctx.ob(rule, f.site, ok, "" if ok else "the leading (Gaussian) part A is not passed on", role="keeps-A", line=f.node.lineno)
     ctx.floor(rule, 9)
 
